@@ -84,6 +84,15 @@ def run_family(prop, tier, seed, replay, origin="writer", mc_cfg=None, level="mo
                           [[4, 9, 3, 1], [4, 10, 3, 2], [4, 11, 3, 3], [4, 10, 5, 4]]):
                 case_list.append({"k": "case", "origin": origin, "fmt": fmt, "tf": tf, "tc": tc, "tiles": tiles, "choices": {"none": 1},
                                   "directed": "digit_count"})
+        # directed (independent encoder): a tar archive whose members take turns between the levels, so that every level comes
+        # in several runs with different extents (an archive that was appended to, or written depth-first by another tool)
+        if prop in ("C03", "C16"):
+            for dot in (0, 1):
+                for tiles in ([[3, 1, 2, 1], [3, 6, 5, 2], [4, 0, 0, 3], [4, 15, 15, 4]],
+                              [[2, 0, 3, 1], [2, 3, 0, 2], [2, 1, 1, 3], [5, 9, 10, 4], [5, 30, 2, 5], [5, 11, 11, 6]]):
+                    case_list.append({"k": "case", "origin": "indep", "fmt": "tar", "tf": "pbf", "tc": "gzip", "tiles": tiles,
+                                      "choices": {"dot_prefix": dot, "dir_members": 0, "ustar": 0, "reverse": 0, "interleave": 1},
+                                      "directed": "tar_level_runs"})
         with open(cases, "w") as f:
             for c in case_list:
                 f.write(json.dumps(c) + "\n")
